@@ -151,17 +151,17 @@ func genMergeTrace(r *Rng, g *EvGen, allowDupInFlight bool) (int, []mergeStep) {
 	g.made = nil
 	var steps []mergeStep
 	type pendEv struct {
-		e     *mocrelay.Event
-		todo  []int // children that still have to answer
+		e    *mocrelay.Event
+		todo []int // children that still have to answer
 	}
 	type pendCnt struct {
 		sub  string
 		todo []int
 	}
 	type subSt struct {
-		fs      []*mocrelay.ReqFilter
+		fs       []*mocrelay.ReqFilter
 		eoseTodo []int
-		closed  bool
+		closed   bool
 	}
 	var pevs []*pendEv
 	var pcnts []*pendCnt
@@ -180,6 +180,28 @@ func genMergeTrace(r *Rng, g *EvGen, allowDupInFlight bool) (int, []mergeStep) {
 	}
 	total := r.Range(8, 40)
 	for len(steps) < total {
+		// scripted: a child that has already sent its EOSE emits an OLDER event while another child is still
+		// streaming, and that other child then repeats the event at the head of the stream (a rare line-up of three)
+		if r.P(5) {
+			for _, name := range subNames {
+				s, ok := subs[name]
+				if !ok || s.closed || len(s.eoseTodo) < 2 {
+					continue
+				}
+				a, b := s.eoseTodo[0], s.eoseTodo[1]
+				head := pick(r, pool)
+				older := g.Event()
+				older.CreatedAt = head.CreatedAt - int64(r.Range(1, 3))
+				pool = append(pool, older)
+				steps = append(steps,
+					mergeStep{K: "child", I: a, S: mocrelay.NewServerEventMsg(name, head)},
+					mergeStep{K: "child", I: a, S: mocrelay.NewServerEOSEMsg(name)},
+					mergeStep{K: "child", I: a, S: mocrelay.NewServerEventMsg(name, older)},
+					mergeStep{K: "child", I: b, S: mocrelay.NewServerEventMsg(name, head)})
+				s.eoseTodo = s.eoseTodo[1:]
+				break
+			}
+		}
 		switch r.Intn(12) {
 		case 0, 1:
 			// client REQ (not re-issued before its EOSE, except rarely)
